@@ -68,6 +68,18 @@ check("C20",
       "Lean 4 invariants over a decoder-parametric model + differential correspondence + RSS measurement in child processes",
       "DESIGN.md §4 C20")
 
+check("C12",
+      "Theorems (Lean, every archive shape, call sequences of ANY length): under the quantifier's discipline every call "
+      "returns what the same call returns on a freshly opened archive (invariant: not dirty -> decoder cache fresh); "
+      "reset() restores the initial state from every state; test()/testzip() verdicts do not depend on the state; "
+      "counter-example theorem for the pinned stale-cache testzip (F3, repaired). The session model is tied to py7zr by "
+      "running real sessions (all disciplined sequences <=3/4 calls + sampled longer + undisciplined ones) on single/"
+      "multi-folder, plain/encrypted archives by path and stream and comparing every call's result (slices -> "
+      "checksums) with the model; each result is also compared directly with a fresh open; archive SHA-256 and stream "
+      "method trace checked for sessions ended by close/context exit/exception.",
+      "Lean 4 invariant proof over a session state machine + differential correspondence of real sessions + direct repeatability exploration",
+      "DESIGN.md §4 C12")
+
 ALL = ["C%02d" % i for i in range(1, 21)]
 REASON_PENDING = "not yet claimed in this revision: model/theorems/correspondence for it are still being built (see DESIGN.md §8.3 staging)"
 
